@@ -198,6 +198,19 @@ pub fn extend_u64s_from_le(v: &mut Vec<u64>, bytes: &[u8])
 #[verifier::external_body]
 pub fn extend_lifetime<'a, 'b>(s: &'a [u8]) -> (r: &'b [u8]) ensures r@ == s@ { unsafe { core::mem::transmute(s) } }
 
+/// R-range-bound: `RangeBounds::{start_bound, end_bound}` of the caller's range type are the pure projections vstd
+/// names `spec_start_bound` / `spec_end_bound` (ASSUMED for the user's range type; vstd gives the generic trait method no postcondition)
+#[verifier::external_body]
+#[verifier::allow(undeclared_external_trait)]
+pub fn range_start<S: core::ops::RangeBounds<A>, A>(range: &S) -> (r: core::ops::Bound<&A>)
+    ensures r == vstd::std_specs::range::RangeBoundsSpec::spec_start_bound(range)
+{ range.start_bound() }
+#[verifier::external_body]
+#[verifier::allow(undeclared_external_trait)]
+pub fn range_end<S: core::ops::RangeBounds<A>, A>(range: &S) -> (r: core::ops::Bound<&A>)
+    ensures r == vstd::std_specs::range::RangeBoundsSpec::spec_end_bound(range)
+{ range.end_bound() }
+
 /// R-hoist of `decompress(ct, reader.take(block_len), &mut out)?` (compression.rs dispatcher + std Take + codec crates):
 /// ASSUMED: reads the next block_len bytes of the source (however the reads are split) and appends their
 /// decompression to `out`; counts as one block load.
